@@ -715,12 +715,17 @@ class Unit:
         """self == other"""
         if isinstance(other, Unit):
             if self.qty_cls is other.qty_cls:
-                if self._equiv is None:
-                    assert other._equiv is None
+                if self._equiv is None or other._equiv is None:
+                    # base units are equal only if they are identical
                     return self is other
-                else:
-                    assert other._equiv is not None
-                    return self._equiv == other._equiv
+                if self.qty_cls.ref_unit is None:
+                    # no common reference unit => the units' factors are not
+                    # comparable, the units are equal only if they are
+                    # defined identically
+                    return (self is other or
+                            self.normalized_definition ==
+                            other.normalized_definition)
+                return self._equiv == other._equiv
         return False
 
     def _compare(self, other: Any, op: CmpOpT) -> bool:
@@ -880,11 +885,12 @@ class Unit:
                 if self is other:
                     amnt = ONE
                 else:
-                    if self._equiv is None or other._equiv is None:
+                    factor = self._get_factor(other)
+                    if factor is None:
                         raise UnitConversionError(
                             "Can't devide '%s' and '%s'.", self, other) \
                             from None
-                    amnt = self._equiv / other._equiv
+                    amnt = factor
             else:
                 res_def = UnitDefT(((self, 1), (other, -1)))
                 try:
